@@ -253,7 +253,7 @@ func (j *hvsJob) judge(pre hvsObs, t *hvsToken, added bool, err error, post hvsO
 	var f []fired
 	n := j.n
 	add := func(o, d string, a ...interface{}) { f = append(f, fired{o, fmt.Sprintf(d, a...)}) }
-	if t.vote != nil && !t.counts && added && err == nil {
+	if t != nil && t.vote != nil && !t.counts && added && err == nil {
 		add("hvs-invalid-vote-accepted", "%s returned added=true, err=nil", t.name)
 	}
 	for s := 0; s < hvsSets; s++ {
@@ -348,7 +348,10 @@ func (j *hvsJob) runOps(ops []*hvsToken, trace func(string)) (int, []fired) {
 	or := newHVSOracle()
 	ob, p := j.observe(h)
 	if p != "" {
-		return 0, []fired{{"hvs-panic", firstLine(p)}}
+		return -1, []fired{{"hvs-panic", firstLine(p)}}
+	}
+	if fs := j.judge(ob, nil, false, nil, ob, or); len(fs) > 0 {
+		return -1, fs
 	}
 	for i, t := range ops {
 		added, err, p := j.apply(h, t)
@@ -393,6 +396,11 @@ func (j *hvsJob) explore() {
 		return
 	}
 	nodes := []hvsNode{{h: h0, key: j.keyOf(h0), or: newHVSOracle(), ob: ob0, parent: -1, tok: -1}}
+	if fs := j.judge(ob0, nil, false, nil, ob0, nodes[0].or); len(fs) > 0 {
+		sig := fmt.Sprintf("C02|hvs|vector=%s|ops=|oracle=%s", vecName(j.pw), fs[0].oracle)
+		r.Violation(sig, "a new HeightVoteSet already violates: "+fs[0].detail, Case{Kind: "hvs", Vector: j.pw, Oracle: fs[0].oracle})
+		return
+	}
 	visited := map[hvsKey]bool{{nodes[0].key, nodes[0].or}: true}
 	frontier := []int32{0}
 	var viols []hvsViol
@@ -528,24 +536,33 @@ func (j *hvsJob) explore() {
 		count int
 	}
 	bestH := map[string]*cand{}
-	seen := map[string]bool{}
+	var mins []*cand
+	minimised := 0
+nextViol:
 	for _, v := range viols {
 		ops := append(j.path(nodes, v.parent), j.toks[v.tok])
-		var ks []string
-		for _, t := range ops {
-			ks = append(ks, t.kind)
+		for _, m := range mins {
+			if m.f.oracle == v.f.oracle {
+				i := 0
+				for _, t := range ops {
+					if i < len(m.ops) && m.ops[i] == t {
+						i++
+					}
+				}
+				if i == len(m.ops) {
+					m.count++
+					continue nextViol
+				}
+			}
 		}
-		sort.Strings(ks)
-		g := v.f.oracle + "|" + strings.Join(ks, ",")
-		if seen[g] {
+		if minimised >= maxMinimisationsPerJob {
+			r.Add("violations_not_minimised", 1)
+			mins = append(mins, &cand{ops, v.f, 1})
 			continue
 		}
-		seen[g] = true
+		minimised++
 		fires := func(c []*hvsToken) ([]*hvsToken, string, bool) {
 			step, fs := j.runOps(c, nil)
-			if step < 0 {
-				return nil, "", false
-			}
 			ok, d := firesOracle(fs, v.f.oracle)
 			if !ok {
 				return nil, "", false
@@ -570,8 +587,11 @@ func (j *hvsJob) explore() {
 				}
 			}
 		}
+		mins = append(mins, &cand{cur, fired{v.f.oracle, detail}, 1})
+	}
+	for _, m := range mins {
 		km := map[string]bool{}
-		for _, t := range cur {
+		for _, t := range m.ops {
 			km[t.kind] = true
 		}
 		var kk []string
@@ -579,16 +599,15 @@ func (j *hvsJob) explore() {
 			kk = append(kk, k)
 		}
 		sort.Strings(kk)
-		class := v.f.oracle + "|" + strings.Join(kk, ",")
+		class := m.f.oracle + "|" + strings.Join(kk, ",")
 		b := bestH[class]
-		if b == nil || len(cur) < len(b.ops) || (len(cur) == len(b.ops) && strings.Join(hvsOpNames(cur), ";") < strings.Join(hvsOpNames(b.ops), ";")) {
-			n := 1
+		if b == nil || len(m.ops) < len(b.ops) || (len(m.ops) == len(b.ops) && strings.Join(hvsOpNames(m.ops), ";") < strings.Join(hvsOpNames(b.ops), ";")) {
 			if b != nil {
-				n += b.count
+				m.count += b.count
 			}
-			bestH[class] = &cand{cur, fired{v.f.oracle, detail}, n}
+			bestH[class] = m
 		} else {
-			b.count++
+			b.count += m.count
 		}
 	}
 	var classes []string
@@ -656,7 +675,7 @@ func replayHVS(c Case) {
 	}
 	fmt.Printf("replaying vector=%s ops=%s on a fresh HeightVoteSet\n", vecName(j.pw), strings.Join(c.Ops, ";"))
 	step, fs := j.runOps(ops, func(s string) { fmt.Println(s) })
-	if step < 0 {
+	if len(fs) == 0 {
 		fmt.Println("observed: the property holds on this history")
 	}
 	for _, f := range fs {
